@@ -2,6 +2,7 @@ from .parameter_group_number import ParameterGroupNumber
 from .message_id import MessageId, FrameFormat
 import logging
 import time
+import threading
 import numpy as np
 
 logger = logging.getLogger(__name__)
@@ -65,6 +66,9 @@ class J1939_22:
         self._snd_buffer = {}
         # Multi-PG Send buffers
         self._multi_pg_snd_buffer = {}
+        # send_pgn (application threads) adds parameter groups to the collection buffers while the job thread
+        # takes due buffers out: both work on a buffer under this lock (nothing blocks while it is held)
+        self._multi_pg_lock = threading.Lock()
 
         # List of ControllerApplication
         self._cas = []
@@ -220,27 +224,28 @@ class J1939_22:
             else:
                 session = 0
                 deadline = time.time() + time_limit
-                while True:
-                    hash = self._buffer_hash_mpg(frame_format, session, src_address, dst_address)
-                    #hash = self._buffer_hash(session, src_address, dst_address)
-                    if hash not in self._multi_pg_snd_buffer:
-                        self._multi_pg_snd_buffer[hash] = {'deadline': deadline, 'cpg': [cpg], 'fill_level': 4 + data_length}
-                        break
-                    elif (self._multi_pg_snd_buffer[hash]['fill_level'] <= (self.DataLength.TP - data_length)):
-                        # update fill level
-                        self._multi_pg_snd_buffer[hash]['fill_level'] += 4 + data_length
-                        # update deadline
-                        if self._multi_pg_snd_buffer[hash]['deadline'] > deadline:
-                            self._multi_pg_snd_buffer[hash]['deadline'] = deadline
-                        # append c-pg
-                        self._multi_pg_snd_buffer[hash]['cpg'].append(cpg)
-                        break
-                    else:
-                        # trigger sending
-                        self._multi_pg_snd_buffer[hash]['deadline'] = time.time()
-                        self.__job_thread_wakeup()
-                        # get next buffer
-                        session += 1
+                with self._multi_pg_lock:
+                    while True:
+                        hash = self._buffer_hash_mpg(frame_format, session, src_address, dst_address)
+                        #hash = self._buffer_hash(session, src_address, dst_address)
+                        if hash not in self._multi_pg_snd_buffer:
+                            self._multi_pg_snd_buffer[hash] = {'deadline': deadline, 'cpg': [cpg], 'fill_level': 4 + data_length}
+                            break
+                        elif (self._multi_pg_snd_buffer[hash]['fill_level'] <= (self.DataLength.TP - data_length)):
+                            # update fill level
+                            self._multi_pg_snd_buffer[hash]['fill_level'] += 4 + data_length
+                            # update deadline
+                            if self._multi_pg_snd_buffer[hash]['deadline'] > deadline:
+                                self._multi_pg_snd_buffer[hash]['deadline'] = deadline
+                            # append c-pg
+                            self._multi_pg_snd_buffer[hash]['cpg'].append(cpg)
+                            break
+                        else:
+                            # trigger sending
+                            self._multi_pg_snd_buffer[hash]['deadline'] = time.time()
+                            self.__job_thread_wakeup()
+                            # get next buffer
+                            session += 1
                 # a buffer was created or its deadline may have moved: let the job thread recalculate its sleep
                 self.__job_thread_wakeup()
         else:
@@ -388,19 +393,21 @@ class J1939_22:
         # check multi-pg send buffers for timeout
         # using 'list(x)' to prevent 'RuntimeError: dictionary changed size during iteration'
         for bufid in list(self._multi_pg_snd_buffer):
-            buf = self._multi_pg_snd_buffer[bufid]
-            if buf['deadline'] > now:
-                if next_wakeup > buf['deadline']:
-                    next_wakeup = buf['deadline']
-            else:
+            with self._multi_pg_lock:
+                buf = self._multi_pg_snd_buffer.get(bufid)
+                if buf is None:
+                    continue
+                if buf['deadline'] > now:
+                    if next_wakeup > buf['deadline']:
+                        next_wakeup = buf['deadline']
+                    continue
                 # deadline reached
-                frame_format, session_num, src_address, dst_address = self._buffer_unhash_mpg(bufid)
-
                 # take the buffer out before it is sent: a group that send_pgn adds while the (possibly blocking)
                 # send call is in progress must open a new buffer instead of being deleted together with this one
                 del self._multi_pg_snd_buffer[bufid]
 
-                self.__send_multi_pg(frame_format, buf['cpg'], src_address, dst_address)
+            frame_format, session_num, src_address, dst_address = self._buffer_unhash_mpg(bufid)
+            self.__send_multi_pg(frame_format, buf['cpg'], src_address, dst_address)
 
 
         # check send buffers
